@@ -427,6 +427,27 @@ def r09d(repo: Repo, chk: Check):
                 judge_computed(holes[0].value, node)
     if found < 2:
         raise AnalysisError(f"to_string: expected two float formats, recognised {found}")
+    # a register object may carry a literal instead of a register name (a variable that stands for a constant): the float among
+    # them must not be returned as it is (Python would print 1e-05)
+    from .shared import return_paths
+    n_reg = 0
+    for conds, v in return_paths(fn):
+        if v is None or not (isinstance(v, ast.Attribute) and v.attr == "code_expr"):
+            continue
+        n_reg += 1
+        ruled_out = False
+        for t, pol in conds:
+            if not pol and isinstance(t, ast.Call) and norm(t.func) == "isinstance" and len(t.args) == 2 and norm(t.args[0]) == norm(v):
+                kinds = norm(t.args[1])
+                if "float" in kinds or "Number" in kinds or "Real" in kinds:
+                    ruled_out = True
+            if pol and isinstance(t, ast.Call) and norm(t.func) == "isinstance" and len(t.args) == 2 and norm(t.args[0]) == norm(v) and norm(t.args[1]) == "str":
+                ruled_out = True
+        chk.judge("R09.d", "types:to_string:a float carried by a register object is formatted, not returned as it is", ruled_out,
+                  f"IC10Operand.to_string returns {norm(v)} unchanged also when it is a float (a variable or an inlined parameter that stands for a float literal): "
+                  f"the instruction text then contains Python's repr, e.g. 'mul r0 1e-05 2'", None, f"{m.path}:{fn.lineno} in IC10Operand.to_string")
+    if n_reg == 0:
+        raise AnalysisError("to_string: the branch that prints a register's code_expr was not found")
 
 
 # ---------------------------------------------------------------------- R09.e
